@@ -234,8 +234,12 @@ def _reparse_raw_stmtlike(self: fst.FST, new_lines: list[str], ln: int, col: int
         _reparse_raw_base(stmtlike, new_lines, ln, col, end_ln, end_col, copy_lines, path, True, None,
                           first_lineno, first_line_col_delta)
 
-        if is_elif:  # nuking a whole elif will parse but can do bad things to end positions
-            stmtlike._set_end_pos((a := stmtlike.a).end_lineno, a.end_col_offset)  # setting own position to what it currently is but will also propagate up the tree
+        # the new end of the reparsed statement is not necessarily "old end + delta" (trailing space or comment, nuking a whole elif), so propagate the real end position up the tree
+
+        if (a := stmtlike.a).__class__ is match_case:  # no AST location of its own, ends where its last body statement ends
+            a = a.body[-1]
+
+        stmtlike._set_end_pos(a.end_lineno, a.end_col_offset)  # setting own position to what it currently is but will also propagate up the tree
 
         return True
 
